@@ -199,7 +199,7 @@ def run(shard, ctx):
             m = TrackModel()
             hist = []
             if rng.random() < 0.8:
-                key, meter = rng.choice(["C", "G", "eb", "F#", "Bb"]), rng.choice([(4, 4), (3, 4), (6, 8), (5, 8), (2, 2), (12, 8)])
+                key, meter = rng.choice(["C", "G", "eb", "F#", "Bb"]), rng.choice([(4, 4), (3, 4), (6, 8), (5, 8), (2, 2), (12, 8), (0, 0)])
                 t.add_bar(Bar(key, meter))
                 m.add_bar(key, meter)
                 hist.append(("add_bar", key, meter))
@@ -396,6 +396,10 @@ def run(shard, ctx):
                         meter = rng.choice([(4, 4), (3, 4)])
                         t.add_bar(Bar("C", meter))
                         m.add_bar("C", meter)
+                        if rng.random() < 0.5:
+                            # an eighth first: later quarters meet a bar that is not full but has less than a quarter left
+                            t.add_notes("B", 8)
+                            m.add(Fraction(1, 8), 8, [pitch("B", 4)])
                     if rng.random() < 0.5:
                         st, rr = ctx.call(c.add_track, t)
                         hist.append("add_track")
@@ -469,7 +473,9 @@ def run(shard, ctx):
                     tr = c2.tracks[-1]
                     if not tr.bars:
                         tr.add_bar(Bar("C", (4, 4)))
-                    tr.add_notes(Note("D", 7), 4) or tr.add_notes(Note("D", 7), 4)
+                    extra = Bar("C", (4, 4))
+                    extra.place_notes(Note("D", 7), 4)
+                    tr.add_bar(extra)
                     st, eq = ctx.call(lambda: c == c2)
                     ctx.check("composition: compositions with different tracks are not equal", st == "ok" and bool(eq) is False, w, False,
                               repr(eq), mechanism="composition-neq")
